@@ -23,7 +23,7 @@ Consume ==
          [] e.k = "ev" /\ e.ev = "qstart" -> QueryStart(e.p)
          [] e.k = "ev" /\ e.ev = "verdict" -> Verdict(e.p, e.lv, e.v, l)
          [] e.k = "ev" /\ e.ev = "cstart" -> CleanerStart(e.p)
-         [] e.k = "ev" /\ e.ev = "cresult" -> CleanerResult(e.p, e.v, e.left, l)
+         [] e.k = "ev" /\ e.ev = "cresult" -> CleanerResult(e.p, e.v, e.left, e.lv, l)
          [] e.k = "ev" /\ e.ev \in {"cdrop_begin", "cdropped"} -> CleanerEvent(e.p, e.ev)
          [] OTHER -> FALSE
 
